@@ -13,7 +13,7 @@ from translate_py import Z, B, S, O, L, D, T
 from vlib import coq_bool_cases
 
 HEADER = ("From Coq Require Import ZArith List Bool.\nFrom Coq Require String.\nImport String.StringSyntax.\n"
-          "From XV Require Import Base.PyLib Gen.PyBcast Gen.PyMisc Gen.PyUnique Gen.PyPackerIdx Gen.PyPureFn Gen.PyEditable.\n"
+          "From XV Require Import Base.PyLib Gen.PyBcast Gen.PyMisc Gen.PyUnique Gen.PyPackerIdx Gen.PyPureFn Gen.PyEditable Gen.PyTensorPacker.\n"
           "Open Scope Z_scope.\n")
 
 
@@ -436,6 +436,16 @@ def case_editable(rng, u, mod):
     return dict(args=[objs, new], call=call2, term=term, rtype=L(O), key=("em-set", _pattern(objs), n - nuniq))
 
 
+def case_tensorpacker(rng, u, mod):
+    shapes = [[rng.choice([0, 1, 1, 2, 3]) for _ in range(rng.randrange(0, 4))] for _ in range(rng.randrange(0, 5))]
+
+    def call(pool):
+        tp_ = mod.TensorPacker([torch.zeros(tuple(sh)) for sh in shapes])
+        return [(a, b, list(sh)) for a, b, sh in tp_.idx_shapes]
+    return dict(args=[shapes], call=call, term="tensorpacker_init %s" % c_val(shapes, L(L(Z))), rtype=L(T(Z, Z, L(Z))),
+                key=("tensorpacker", tuple(tuple(sh) for sh in shapes)))
+
+
 FUNCTIONS = {
     "normalize_bcast_dims": ("PyBcast", "xitorch._utils.bcast", lambda r, u, m: case_bcast(r, u, m, "normalize_bcast_dims")),
     "get_bcasted_dims": ("PyBcast", "xitorch._utils.bcast", lambda r, u, m: case_bcast(r, u, m, "get_bcasted_dims")),
@@ -447,6 +457,7 @@ FUNCTIONS = {
     "packer_unique_idxs": ("PyPackerIdx", "xitorch._core.packer", case_packeridx),
     "purefunction": ("PyPureFn", "xitorch._core.pure_function", case_purefn),
     "editable_module": ("PyEditable", "xitorch._core.editable_module", case_editable),
+    "tensorpacker": ("PyTensorPacker", "xitorch._utils.misc", case_tensorpacker),
 }
 
 
